@@ -144,7 +144,27 @@ def plan_C08(tier, seed):
         assumptions=["TLC", "harness construction of represented values via reflect", "encoding/json as the canonical decoder"])
 
 
-PLANS = {"C08": plan_C08, "C11": plan_C11, "C12": plan_C12, "C03": plan_C03, "C06": plan_C06, "C01": plan_C01, "C02": plan_C02, "C07": plan_C07}
+def plan_C17(tier, seed):
+    k = 2 if tier == "quick" else 3
+    c = {"DEV_AtoiIndex": "FALSE", "MUT_UnescapeOrder": "FALSE", "K": k}
+    jobs = [tlc("c17_%s" % f, "MC_Pointer", dict(c, Family=q(f)), inv, workers=6)
+            for f, inv in (("P1", ["Designated", "Emit"]), ("P2", ["Emit"]))]
+    return dict(
+        tlc=jobs, parallel=2,
+        replay=[dict(name="c17_replay", family="eval", inputs=[j["name"] for j in jobs])],
+        rule="P1: for every subschema-bearing keyword of both drafts (single / array / map valued, incl. the items and "
+             "dependencies unions) x every key string over the alphabet {a / ~ 0 1 %% space -} up to length K plus non-ASCII "
+             "and '$ref', '#', '?', '01' x indexes 0..2, nested to depth 2: a $ref built from the location's RFC 6901 pointer "
+             "(escaped, percent-encoded by the harness's own encoder) must reach exactly that uniquely marked subschema; "
+             "P2: pointers that name no subschema location (signs, leading zeros, '-', out of range, through non-schema "
+             "keywords, wrong case, missing slash ...) must make Resolve fail. TLC also checks the character-level laws "
+             "Unesc(Esc(k)) = k, Parse(Ptr(tokens)) = tokens, AtoiOK = IndexOK. Non-trivial = every case (each has a "
+             "discriminating verdict vector or a predicted error); distinct by document text",
+        exhaustive=True,
+        assumptions=["TLC", "net/url fragment decoding", "harness pointer escaping / percent-encoding (independent of the repo)"])
+
+
+PLANS = {"C17": plan_C17, "C08": plan_C08, "C11": plan_C11, "C12": plan_C12, "C03": plan_C03, "C06": plan_C06, "C01": plan_C01, "C02": plan_C02, "C07": plan_C07}
 
 
 def plan(prop, tier, seed):
